@@ -676,6 +676,24 @@ fn sweep_apps() -> Vec<App> {
             }
         }
     }
+    // strings that are the printed form of some other value (casts must not be fooled by them, and
+    // must not panic on out-of-range ones)
+    let mut printed: Vec<RV> = Vec::new();
+    for v in pool::v0().iter().chain(durs.iter()).chain(dts.iter().step_by(40)) {
+        if !matches!(v, RV::Str(_)) {
+            printed.push(RV::Str(v.to_value().to_string()));
+        }
+    }
+    for extra in ["PT7200S", "-PT90S", "PT9223372036854776S", "-PT9223372036854776S", "PT0.5S", "P1D", "PT1H", "P1W", "1 week", "90s", "1h30m", "0x10", "0b11", "0o17", "1_000", "１２", "Infinity", "-inf", "nan", "1e400", "1e-400", "0.1e1", "1.", ".5", "+.5e+1", "१२"] {
+        printed.push(RV::Str(extra.to_string()));
+    }
+    printed.sort();
+    printed.dedup();
+    for v in &printed {
+        for op in ALL_UNOPS {
+            apps.push(App::Un(op, v.clone()));
+        }
+    }
     let pairs = |a: &Vec<RV>, b: &Vec<RV>, apps: &mut Vec<App>, cap: usize| {
         for x in a.iter().take(cap) {
             for y in b.iter().take(cap) {
